@@ -1379,6 +1379,44 @@ class Mailbox:
         # everything after it a new message.
         #
         new_msg_keys = sorted(set(msg_keys) - set(self.msg_keys))
+
+        # The messages of a folder are in the order of their keys and their
+        # uids ascend in that order; `msg_keys` and `uids` are stored as
+        # sorted sequences. A new message gets the highest uid, so it has to
+        # have the highest key as well. One that turns up with a key below
+        # keys we know (an MH tool filled a gap, or it is the file of a message
+        # we were killed while expunging) is given the next free key now - what
+        # `pack` would do with it - or the pairing of keys and uids would
+        # change the next time the mailbox is loaded from the db.
+        #
+        if self.msg_keys and new_msg_keys and new_msg_keys[0] < max(
+            self.msg_keys
+        ):
+            highest = max(self.msg_keys)
+            low_keys = [k for k in new_msg_keys if k < highest]
+            next_key = max(max(msg_keys), highest) + 1
+            async with self.mh_sequences_lock:
+                try:
+                    on_disk = self.mailbox.get_sequences()
+                except Exception:
+                    on_disk = {}
+                for key in low_keys:
+                    os.rename(
+                        mbox_msg_path(self.mailbox, key),
+                        mbox_msg_path(self.mailbox, next_key),
+                    )
+                    for seq_keys in on_disk.values():
+                        if key in seq_keys:
+                            seq_keys.remove(key)
+                            seq_keys.append(next_key)
+                    msg_keys[msg_keys.index(key)] = next_key
+                    next_key += 1
+                self.mailbox.set_sequences(
+                    {k: sorted(v) for k, v in on_disk.items() if v}
+                )
+            msg_keys.sort()
+            new_msg_keys = sorted(set(msg_keys) - set(self.msg_keys))
+
         num_new_msgs = len(new_msg_keys)
         new_msgs = {}
         logger.debug(
